@@ -560,3 +560,90 @@ Example C08_insert_split_nonvacuous :
   ref_split true [[102]; [111]; [111]]%N [[32]; [98]; [97]; [114]; [10]]%N [] [[[88]; [89]]]%N
   = ([[[102]; [111]; [111]]; [[88]; [89]]]%N, [[98]; [97]; [114]; [10]]%N).
 Proof. vm_compute. repeat split; reflexivity. Qed.
+
+(* ---------- C08_registers on the C TEXT of reg.c (TrReg.v) ----------
+   tools/c2clite.py translates reg_getraw, reg_get, reg_putraw, reg_put of /repo/reg.c and the tables
+   `static char *bufs[256]; static int lnmode[256];` (blocks G_reg__bufs, G_lnmode) into CLite terms (GenCFuncs.v).
+   TrReg.regs_at m pb lb R: the memory m represents the register file R of RegDefs.v (the model of the theorems above):
+   cell c of bufs is NULL when R c = None, else it points to the start of a live heap block holding exactly the text and
+   its terminator, lnmode[c] != 0 is the line-wise flag, two cells never share a block.  The three theorems below are
+   stated for EVERY represented memory, every name 0..255, every terminated text, every int flag; `= Ok ...` means that
+   no load, store, strlen, strcpy, strcat or free left its block or touched a freed one (CLite checks each access). *)
+From NV Require CLite CLiteProps CLiteTac GenCFuncs TrReg.
+
+(* reg_get(c, lnp), c not one of the computed names ; # ^ (they call snprintf: not translated): the returned pointer is
+   cell c of bufs (cell 0 for the double quote), *lnp = lnmode[c] when lnp != NULL, nothing else changes *)
+Theorem C08_tr_reg_get : forall m pb lb R c lnp d fuel,
+  TrReg.regs_at m pb lb R -> (0 <= c < 256)%Z -> c <> 59%Z -> c <> 35%Z -> c <> 94%Z -> TrReg.lnp_ok m lnp ->
+  CLite.callf GenCFuncs.cprog fuel (S (S d)) GenCFuncs.F_reg_get [CLite.VInt c; lnp] m
+  = CLite.Ok (TrReg.cellp pb (Z.to_nat (TrReg.get_name c)), TrReg.ln_store m lnp (CLiteProps.nthz lb (TrReg.get_name c))).
+Proof. exact TrReg.tr_reg_get. Qed.
+Print Assumptions C08_tr_reg_get.
+
+(* reg_putraw(c, s, ln): returns; the memory afterwards is putraw_mem: a fresh block with pre ++ s (pre = the text of the
+   lower-case register when c is a capital), the old block of the register freed, the two table cells set; and that
+   memory represents RegDefs.reg_putraw R c s (ln != 0) *)
+Theorem C08_tr_reg_putraw : forall m pb lb R c bs (t : bytes) (o : nat) ln d fuel,
+  TrReg.regs_at m pb lb R -> (0 <= c < 256)%Z -> CLiteProps.str_at m bs t -> nonul t -> (o <= length t)%nat ->
+  bs <> GenCFuncs.G_reg__bufs -> bs <> GenCFuncs.G_lnmode -> CLiteTac.int_ok ln ->
+  TrReg.str_fits (TrReg.pre_of R c ++ skipn o t) ->
+  CLite.callf GenCFuncs.cprog fuel (S d) GenCFuncs.F_reg_putraw [CLite.VInt c; CLite.VPtr bs (Z.of_nat o); CLite.VInt ln] m
+  = CLite.Ok (CLite.VUndef, TrReg.putraw_mem m pb lb (Z.to_nat (TrReg.lowz c)) (TrReg.pre_of R c ++ skipn o t) ln) /\
+  TrReg.regs_at (TrReg.putraw_mem m pb lb (Z.to_nat (TrReg.lowz c)) (TrReg.pre_of R c ++ skipn o t) ln)
+                (CLiteProps.upd pb (Z.to_nat (TrReg.lowz c)) (CLite.VPtr (length m) 0%Z))
+                (CLiteProps.upd lb (Z.to_nat (TrReg.lowz c)) ln)
+                (reg_putraw R (Z.to_N c) (skipn o t) (negb (ln =? 0)%Z)).
+Proof.
+  exact (fun m pb lb R c bs t o ln d fuel H Hc Hs Hn Ho N1 N2 Hl Hf =>
+    conj (TrReg.tr_reg_putraw m pb lb R c bs t o ln d fuel H Hc Hs Hn Ho N1 N2 Hl Hf)
+         (TrReg.putraw_mem_rep m pb lb R c (skipn o t) ln H Hc (Forall_skipn' _ _ _ Hn) Hl Hf)).
+Qed.
+Print Assumptions C08_tr_reg_putraw.
+
+(* reg_put(c, s, ln), s in a block that is no register's: returns; the memory afterwards represents reg_put R c s (ln != 0)
+   -- the reg_put of C08_registers_put_get / _append / _rotate / _frame above: capitals append, the shift 9 <- 8 <- .. <- 1
+   and register 1 for the unnamed and the lettered registers when the text is line-wise or has a newline, the named
+   register set -- and TrReg.fr relates the two memories: every block a register pointed to is still that register's,
+   unchanged, or was freed (a second free would be an error, so: exactly once) and the register points elsewhere; every
+   other old block is unchanged; every block allocated during the call is a register's or was freed again, except the one
+   cell of the local i_ln (block length m) *)
+Theorem C08_tr_reg_put : forall m pb lb R c bs (t : bytes) (o : nat) ln d fuel,
+  TrReg.regs_at m pb lb R -> (0 <= c < 256)%Z -> CLiteProps.str_at m bs t -> nonul t -> (o <= length t)%nat ->
+  bs <> GenCFuncs.G_reg__bufs -> bs <> GenCFuncs.G_lnmode ->
+  (forall k o', (k < 256)%nat -> TrReg.cellp pb k <> CLite.VPtr bs o') ->
+  CLiteTac.int_ok ln -> TrReg.str_fits (TrReg.pre_of R c ++ skipn o t) -> (9 <= fuel)%nat ->
+  exists m' pb' lb',
+    CLite.callf GenCFuncs.cprog fuel (S (S (S d))) GenCFuncs.F_reg_put [CLite.VInt c; CLite.VPtr bs (Z.of_nat o); CLite.VInt ln] m
+    = CLite.Ok (CLite.VUndef, m') /\
+    TrReg.regs_at m' pb' lb' (reg_put R (Z.to_N c) (skipn o t) (negb (ln =? 0)%Z)) /\
+    TrReg.fr (length m) m pb m' pb' /\ (exists v, nth_error m' (length m) = Some [v]).
+Proof. exact TrReg.tr_reg_put. Qed.
+Print Assumptions C08_tr_reg_put.
+
+(* a name outside 0..255 (and not EOF): isupper(c) is undefined in C, the error ECtype here -- the callers pass an unsigned
+   char (REG(s) in ex.c, the key read in vi.c) *)
+Theorem C08_tr_reg_putraw_badname : forall m c sp ln d fuel, (c < -1 \/ 255 < c)%Z -> sp <> CLite.VUndef ->
+  CLite.callf GenCFuncs.cprog fuel (S d) GenCFuncs.F_reg_putraw [CLite.VInt c; sp; CLite.VInt ln] m = CLite.Err CLite.ECtype.
+Proof. exact TrReg.tr_reg_putraw_badname. Qed.
+Print Assumptions C08_tr_reg_putraw_badname.
+
+(* non-vacuity: the zero-initialised globals represent the empty register file; and the translated reg_put RUNS: three
+   line-wise stores ("one\n" into the unnamed register, "two\n" into a, "three\n" into the unnamed register) on the
+   program's initial memory followed by the three texts; afterwards register 1 holds "three\n", 2 "two\n", 3 "one\n", the
+   unnamed register "three\n", a "two\n" (TrReg.reg_text reads the block a cell of bufs points to) *)
+Example C08_tr_reg_nonvacuous :
+  TrReg.regs_at GenCFuncs.cglobals GenCFuncs.gb_reg__bufs (repeat 0%Z 256) regs0 /\
+  let one := CLite.cstr_block [111; 110; 101; 10]%Z in
+  let two := CLite.cstr_block [116; 119; 111; 10]%Z in
+  let three := CLite.cstr_block [116; 104; 114; 101; 101; 10]%Z in
+  let g := length GenCFuncs.cglobals in
+  let m0 := (GenCFuncs.cglobals ++ [one; two; three])%list in
+  let put c b m := match m with
+                   | CLite.Ok (_, m) => CLite.callf GenCFuncs.cprog 12 4 GenCFuncs.F_reg_put [CLite.VInt c; CLite.VPtr b 0%Z; CLite.VInt 1%Z] m
+                   | e => e end in
+  match put 0%Z (g + 2)%nat (put 97%Z (g + 1)%nat (put 0%Z g (CLite.Ok (CLite.VUndef, m0)))) with
+  | CLite.Ok (_, m3) => [TrReg.reg_text m3 49; TrReg.reg_text m3 50; TrReg.reg_text m3 51; TrReg.reg_text m3 52;
+                         TrReg.reg_text m3 0; TrReg.reg_text m3 97]
+  | CLite.Err _ => []
+  end = [Some three; Some two; Some one; None; Some three; Some two].
+Proof. split; [exact TrReg.regs_at_init|vm_compute; reflexivity]. Qed.
